@@ -31,7 +31,15 @@ Definition outcome_eqb (m i : outcome) : bool :=
 Definition corr_codes (c : case) : list Z :=
   match c with
   | Single s o _ _ => chk 1 (outcome_eqb (compile_str (chars s)) o)
-  | Hook _ _ _ => []
+  | Hook s registered fired =>
+      (* the model's own run-time meaning of the compiled graphs on the probe heap *)
+      match compile_str (chars s) with
+      | Graphs gs =>
+          let hits := flat_map (hook_graph probe_heap 0) gs in
+          if has_err hits then chk 3 (negb registered)
+          else chk 3 registered ++ (if registered then chk 4 (zset_eqb (hit_codes hits) fired) else [])
+      | _ => chk 3 (negb registered)
+      end
   | ExprC e o => chk 1 (outcome_eqb (match create_graphs e [] with Some gs => Graphs gs | None => CompileError end) o)
   | Pair _ s1 s2 o1 o2 _ _ _ =>
       chk 1 (outcome_eqb (compile_str (chars s1)) o1) ++ chk 2 (outcome_eqb (compile_str (chars s2)) o2)
